@@ -46,8 +46,12 @@ func (st *DelegationStore) WithState(state *storage.State) *DelegationStore {
 func (st *DelegationStore) Get(key []byte) (amt *balance.Amount, err error) {
 	prefixKey := append(st.prefix, key...)
 
-	dat, _ := st.state.Get(storage.StoreKey(prefixKey))
+	dat, err := st.state.Get(storage.StoreKey(prefixKey))
 	amt = balance.NewAmount(0)
+	if err != nil {
+		// a refused read is not an empty amount
+		return
+	}
 	if len(dat) == 0 {
 		return
 	}
@@ -153,10 +157,14 @@ func (st *DelegationStore) GetMatureAmounts(version int64) (mature *MatureBlock,
 	key := st.getMatureKey(version)
 	prefixKey := append(st.prefix, key...)
 
-	dat, _ := st.state.Get(storage.StoreKey(prefixKey))
+	dat, err := st.state.Get(storage.StoreKey(prefixKey))
 	mature = &MatureBlock{
 		Height: version,
 		Data:   make([]*MatureData, 0),
+	}
+	if err != nil {
+		// a refused read is not an empty list
+		return
 	}
 	if len(dat) == 0 {
 		return
